@@ -7,6 +7,7 @@ import (
 	"os/exec"
 	"path/filepath"
 	"reflect"
+	"regexp"
 	"sort"
 	"strings"
 	"time"
@@ -79,6 +80,8 @@ func (r *run) conclude(ld *loaded, files []harnessFile, results []*interp.Harnes
 	}
 
 	// native replays
+	nondet := r.nondeterministicHarnesses(files)
+	tieBreakNotes := 0
 	validated, disagreements := 0, 0
 	confirmedNew := []*replayCase{}
 	confirmedKnown := map[string]*replayCase{}
@@ -97,7 +100,7 @@ func (r *run) conclude(ld *loaded, files []harnessFile, results []*interp.Harnes
 	// order): a case whose first native run disagrees with the symbolic path is re-run a few times, and it counts as
 	// reproduced / agreeing as soon as one native run shows the behaviour of the symbolic path.
 	if !r.noReplay && natives != nil {
-		for attempt := 0; attempt < 8; attempt++ {
+		for attempt := 0; attempt < 12; attempt++ {
 			var again []*replayCase
 			for _, c := range cases {
 				n := natives[c.ID]
@@ -179,6 +182,11 @@ func (r *run) conclude(ld *loaded, files []harnessFile, results []*interp.Harnes
 			continue // the outcome of math/rand cannot be forced natively; such paths are not used for translation validation
 		}
 		if why := compareSample(c.sample, n); why != "" {
+			if softDisagreement(why) && nondet[c.Harness] {
+				// same verdict, another admissible behaviour of order-dependent real code
+				tieBreakNotes++
+				continue
+			}
 			disagreements++
 			inconclusive = append(inconclusive, fmt.Sprintf("%s: translation validation disagrees: %s (inputs %v)", c.Harness, why, compactModel(c.Inputs)))
 		} else {
@@ -226,6 +234,7 @@ func (r *run) conclude(ld *loaded, files []harnessFile, results []*interp.Harnes
 		}
 	}
 	if !r.noEvidence {
+		r.tieBreakNotes = tieBreakNotes
 		r.writeEvidence(ld, results, cases, validated, disagreements, len(confirmedNew), knownIDs, inconclusive, loadTime, replayWall)
 	}
 	return exit
@@ -247,6 +256,53 @@ func compactModel(m map[string]any) string {
 		s = s[:600] + "…"
 	}
 	return s
+}
+
+// softDisagreement: the native run and the symbolic path agree on the verdict (both complete without a failed
+// assertion) and differ only in how many assertions / marks / observations they pass through.
+func softDisagreement(why string) bool {
+	for _, p := range []string{"assert count differs", "reach marks differ", "observations differ", "native run asked for inputs"} {
+		if strings.HasPrefix(why, p) {
+			return true
+		}
+	}
+	return false
+}
+
+// nondeterministicHarnesses: harnesses defined in a file that carries `// verif:nondeterministic <reason>`: the real
+// code under them breaks ties by Go's randomised map iteration order, so a native run may legitimately take another
+// of the admissible behaviours than the symbolic path (which iterates in insertion order).
+func (r *run) nondeterministicHarnesses(files []harnessFile) map[string]bool {
+	out := map[string]bool{}
+	fnRe := regexp.MustCompile(`(?m)^func (Verif\w+)\(`)
+	funcs := map[string][]string{} // package dir -> harness functions
+	shared := map[string]bool{}    // package dirs whose shared (harness-less) file carries the directive
+	for _, f := range files {
+		b, err := os.ReadFile(f.path)
+		if err != nil {
+			continue
+		}
+		var names []string
+		for _, m := range fnRe.FindAllStringSubmatch(string(b), -1) {
+			names = append(names, m[1])
+		}
+		funcs[f.pkgDir] = append(funcs[f.pkgDir], names...)
+		if !strings.Contains(string(b), "// verif:nondeterministic") {
+			continue
+		}
+		if len(names) == 0 {
+			shared[f.pkgDir] = true // a shared world builder: applies to every harness built on it
+		}
+		for _, n := range names {
+			out[n] = true
+		}
+	}
+	for dir := range shared {
+		for _, n := range funcs[dir] {
+			out[n] = true
+		}
+	}
+	return out
 }
 
 func compareSample(s *interp.PathSample, n *nativeResult) string {
